@@ -704,7 +704,11 @@ func TestC01(t *testing.T) {
 					case 0:
 						s.Start, s.Target = f.Start+1, nil
 					case 1:
-						s.Owner, s.Target = a.Bech, nil
+						if a.Bech == f.Owner { // the submitter IS the owner: naming itself would address the real file
+							s.Start, s.Target = f.Start+1, nil
+						} else {
+							s.Owner, s.Target = a.Bech, nil
+						}
 					case 2:
 						m := append([]byte{}, f.Merkle...)
 						m[0] ^= 1
